@@ -161,6 +161,12 @@ class MG(G):
         self.labels_defined, self.labels_used = set(), set()
         body = []
         n = self.i(1, 5)
+        if self.b(1, 5):
+            # anchor shapes: degenerate bodies - only a return, only a label and a return, an op behind a return
+            n = 0
+            self.degenerate_macros.append(name)
+            body = self.pick([[{"k": "ctl", "v": "return"}], [{"k": "ctl", "v": "return"}], [{"k": "ctl", "v": "return"}, self.op()], [self.op(), {"k": "ctl", "v": "return"}],
+                              [{"k": "if", "not": False, "conds": [self.cond()], "body": [{"k": "ctl", "v": "return"}], "elifs": [], "else": None}]])
         for _ in range(n):
             if self.budget <= 0:
                 break
